@@ -56,11 +56,10 @@ def check(prop, tier, replay, C):
 
     # ------------------------------------------------------------ 1. extract + build
     with C.Lock("lake.lock"):
-        if not os.path.exists(os.path.join(BUILD, "extract")) or os.environ.get("VERIF_REBUILD_EXTRACT"):
-            rc, out = C.run([C.GO, "build", "-o", os.path.join(BUILD, "extract"), "."],
-                            cwd=os.path.join(ROOT, "harness", "extract"), env=C.GOENV)
-            if rc:
-                broken.append(("infra", "extractor build", out[-2000:]))
+        rc, out = C.run([C.GO, "build", "-o", os.path.join(BUILD, "extract"), "."],
+                        cwd=os.path.join(ROOT, "harness", "extract"), env=C.GOENV, quiet=True)
+        if rc:
+            broken.append(("infra", "extractor build", out[-2000:]))
         rc, out = C.run([os.path.join(BUILD, "extract"), "-repo", REPO,
                          "-out", os.path.join(LEAN, "GunYu", "Gen"),
                          "-facts", os.path.join(outdir, "facts.json")])
@@ -124,6 +123,10 @@ def check(prop, tier, replay, C):
         facts = json.load(open(os.path.join(outdir, "facts.json")))
     except Exception:
         pass
+    my_gens = set(P.get("gens", [])) | {prop.lower(), "extra"}
+    for g, msg in (facts.get("gen_errors") or {}).items():
+        if g in my_gens:
+            broken.append(("tie", f"generator {g} could not translate the source", msg))
     for key, want in P.get("expected_facts", {}).items():
         got = facts.get(key)
         if got != want:
